@@ -531,16 +531,122 @@ def extract_traj_led(g):
     g.strings('ledWriteCall', call_args(wd, 'self.mem_handler.write')[0])
 
 
+def str_consts(cls):
+    out = {}
+    for n in cls.body:
+        if isinstance(n, ast.Assign) and len(n.targets) == 1 and isinstance(n.targets[0], ast.Name) \
+                and isinstance(n.value, ast.Constant) and isinstance(n.value.value, str):
+            out[n.targets[0].id] = n.value.value
+    return out
+
+
+def envelope_checks(fn, what):
+    """the `if <test>: raise Exception('<msg>')` sequence of a read(): [(test text, message)]"""
+    res = []
+    for n in sorted((m for m in ast.walk(fn) if isinstance(m, ast.If)), key=lambda m: m.lineno):
+        if len(n.body) == 1 and isinstance(n.body[0], ast.Raise):
+            exc = n.body[0].exc
+            X.expect(isinstance(exc, ast.Call) and ast.unparse(exc.func) == 'Exception' and len(exc.args) == 1
+                     and isinstance(exc.args[0], ast.Constant), '%s: unexpected raise: %s' % (what, ast.unparse(n.body[0])))
+            res.append((ast.unparse(n.test), exc.args[0].value))
+    return res
+
+
+def returned_dict(fn, what):
+    rets = [n for n in ast.walk(fn) if isinstance(n, ast.Return) and isinstance(n.value, ast.Dict)]
+    X.expect(len(rets) == 1, '%s: expected `return {...}`' % what)
+    return ['%s: %s' % (ast.unparse(k), ast.unparse(v)) for k, v in zip(rets[0].value.keys, rets[0].value.values)]
+
+
+def extract_yaml(g):
+    tree = X.parse('cflib/localization/lighthouse_config_manager.py')
+    fm = X.find(tree, 'LighthouseConfigFileManager')
+    sc = str_consts(fm)
+    for k in ('TYPE_ID', 'TYPE', 'VERSION_ID', 'VERSION', 'GEOS_ID', 'CALIBS_ID', 'SYSTEM_TYPE_ID'):
+        X.expect(k in sc, 'LighthouseConfigFileManager.%s is not a string literal' % k)
+        g.string('lhf' + ''.join(w.capitalize() for w in k.split('_')), sc[k])
+    ic = class_consts_eval(fm)
+    g.nat('lhfSystemTypeV2', need(ic, ['SYSTEM_TYPE_V2'], 'LighthouseConfigFileManager')[0])
+    wr = X.find(fm, 'write')
+    a = assigns(wr)
+    X.expect('data' in a and isinstance(a['data'], ast.Dict), 'LighthouseConfigFileManager.write: data = {...} not found')
+    g.strings('lhfWriteData', ['%s: %s' % (ast.unparse(k), ast.unparse(v)) for k, v in zip(a['data'].keys, a['data'].values)])
+    g.strings('lhfWriteTests', [ast.unparse(n.test) for n in sorted((m for m in ast.walk(wr) if isinstance(m, ast.If)), key=lambda m: m.lineno)])
+    g.strings('lhfWriteLoops', ['%s in %s' % (ast.unparse(n.target), ast.unparse(n.iter)) for n in sorted((m for m in ast.walk(wr) if isinstance(m, ast.For)), key=lambda m: m.lineno)])
+    g.strings('lhfWriteAssigns', [ast.unparse(a[k]) for k in ('file_geos[id]', 'file_calibs[id]') if k in a])
+    g.strings('lhfDump', [ast.unparse(c) for c in calls(wr, 'yaml.dump')])
+    rd = X.find(fm, 'read')
+    ch = envelope_checks(rd, 'LighthouseConfigFileManager.read')
+    g.strings('lhfReadChecks', [t for t, _ in ch])
+    g.strings('lhfReadMessages', [m for _, m in ch])
+    g.strings('lhfLoad', [ast.unparse(c) for c in calls(rd, 'yaml.safe_load')])
+    g.strings('lhfReadTests', [ast.unparse(n.test) for n in sorted((m for m in ast.walk(rd) if isinstance(m, ast.If)), key=lambda m: m.lineno)])
+    g.strings('lhfReadLoops', ['%s in %s' % (ast.unparse(n.target), ast.unparse(n.iter)) for n in sorted((m for m in ast.walk(rd) if isinstance(m, ast.For)), key=lambda m: m.lineno)])
+    a = assigns(rd)
+    g.strings('lhfReadAssigns', [ast.unparse(a[k]) for k in ('result_system_type', 'result_geos[id]', 'result_calibs[id]') if k in a])
+    rets = [ast.unparse(n.value) for n in ast.walk(rd) if isinstance(n, ast.Return)]
+    g.strings('lhfReadReturn', rets)
+    mem = X.parse('cflib/crazyflie/mem/lighthouse_memory.py')
+    geo = X.find(mem, 'LighthouseBsGeometry')
+    sc = str_consts(geo)
+    g.strings('lhfGeoIds', [sc.get('FILE_ID_ORIGIN', '?'), sc.get('FILE_ID_ROTATION', '?')])
+    g.strings('lhfGeoAsFile', returned_dict(X.find(geo, 'as_file_object'), 'LighthouseBsGeometry.as_file_object'))
+    ff = X.find(geo, 'from_file_object')
+    g.strings('lhfGeoFromFile', [ast.unparse(n) for n in ff.body if isinstance(n, ast.Assign)])
+    sw = X.find(mem, 'LighthouseCalibrationSweep')
+    sc = str_consts(sw)
+    ids = ['FILE_ID_PHASE', 'FILE_ID_TILT', 'FILE_ID_CURVE', 'FILE_ID_GIBMAG', 'FILE_ID_GIBPHASE', 'FILE_ID_OGEEMAG', 'FILE_ID_OGEEPHASE']
+    g.strings('lhfSweepIds', [sc.get(k, '?') for k in ids])
+    g.strings('lhfSweepAsFile', returned_dict(X.find(sw, 'as_file_object'), 'LighthouseCalibrationSweep.as_file_object'))
+    g.strings('lhfSweepFromFile', [ast.unparse(n) for n in X.find(sw, 'from_file_object').body if isinstance(n, ast.Assign)])
+    cal = X.find(mem, 'LighthouseBsCalibration')
+    sc = str_consts(cal)
+    g.strings('lhfCalibIds', [sc.get('FILE_ID_SWEEPS', '?'), sc.get('FILE_ID_UID', '?')])
+    g.strings('lhfCalibAsFile', returned_dict(X.find(cal, 'as_file_object'), 'LighthouseBsCalibration.as_file_object'))
+    g.strings('lhfCalibFromFile', [ast.unparse(n) for n in X.find(cal, 'from_file_object').body if isinstance(n, ast.Assign)])
+    # persistent parameter file
+    tree = X.parse('cflib/localization/param_io.py')
+    pm = X.find(tree, 'ParamFileManager')
+    sc = str_consts(pm)
+    for k in ('TYPE_ID', 'TYPE', 'VERSION_ID', 'VERSION', 'PARAMS_ID'):
+        X.expect(k in sc, 'ParamFileManager.%s is not a string literal' % k)
+        g.string('pf' + ''.join(w.capitalize() for w in k.split('_')), sc[k])
+    wr = X.find(pm, 'write')
+    a = assigns(wr)
+    X.expect('data' in a and isinstance(a['data'], ast.Dict) and 'file_params[id]' in a, 'ParamFileManager.write: data / file_params[id] not found')
+    g.strings('pfWriteData', ['%s: %s' % (ast.unparse(k), ast.unparse(v)) for k, v in zip(a['data'].keys, a['data'].values)])
+    g.string('pfWriteEntry', ast.unparse(a['file_params[id]']))
+    g.strings('pfWriteLoops', ['%s in %s' % (ast.unparse(n.target), ast.unparse(n.iter)) for n in ast.walk(wr) if isinstance(n, ast.For)])
+    g.strings('pfDump', [ast.unparse(c) for c in calls(wr, 'yaml.dump')])
+    rd = X.find(pm, 'read')
+    ch = envelope_checks(rd, 'ParamFileManager.read')
+    g.strings('pfReadChecks', [t for t, _ in ch])
+    g.strings('pfReadMessages', [m for _, m in ch])
+    g.strings('pfLoad', [ast.unparse(c) for c in calls(rd, 'yaml.safe_load')])
+    g.strings('pfReadTests', [ast.unparse(n.test) for n in sorted((m for m in ast.walk(rd) if isinstance(m, ast.If)), key=lambda m: m.lineno)])
+    gds = [n for n in ast.walk(rd) if isinstance(n, ast.FunctionDef) and n.name == 'get_data']
+    X.expect(len(gds) == 1, 'ParamFileManager.read: nested get_data not found')
+    gd = gds[0]
+    g.strings('pfGetData', [ast.unparse(n) for n in ast.walk(gd) if isinstance(n, ast.Assign)] +
+              ['%s in %s' % (ast.unparse(n.target), ast.unparse(n.iter)) for n in ast.walk(gd) if isinstance(n, ast.For)])
+    g.strings('pfReadReturn', [ast.unparse(n.value) for n in sorted((m for m in ast.walk(rd) if isinstance(m, ast.Return)), key=lambda m: m.lineno)])
+    par = X.parse('cflib/crazyflie/param.py')
+    nt = [ast.unparse(n.value) for n in par.body if isinstance(n, ast.Assign) and ast.unparse(n.targets[0]) == 'PersistentParamState']
+    g.strings('pfStateType', nt)
+
+
 def extract(ctx):
     g = X.GenFile(PID, ['cflib/crazyflie/mem/i2c_element.py', 'cflib/crazyflie/mem/ow_element.py', 'cflib/crazyflie/mem/lighthouse_memory.py',
                           'cflib/crazyflie/mem/deck_memory.py', 'cflib/crazyflie/mem/loco_memory.py', 'cflib/crazyflie/mem/loco_memory_2.py',
-                          'cflib/crazyflie/mem/trajectory_memory.py', 'cflib/crazyflie/mem/led_timings_driver_memory.py'])
+                          'cflib/crazyflie/mem/trajectory_memory.py', 'cflib/crazyflie/mem/led_timings_driver_memory.py',
+                          'cflib/localization/lighthouse_config_manager.py', 'cflib/localization/param_io.py'])
     extract_i2c(g)
     extract_ow(g)
     extract_lh(g)
     extract_deck(g)
     extract_loco(g)
     extract_traj_led(g)
+    extract_yaml(g)
     return {'C14.lean': g.render()}
 
 
